@@ -93,3 +93,40 @@ func BadT1UseAfterRelease(r *refRing, seq uint16) int {
 	p.Release()
 	return p.Data()
 }
+
+// ---- T2: tag check of a direct-mapped slot ------------------------------------------------------------------------------
+
+type GoodT2ring struct{ refRing }
+
+func (r *refRing) GoodT2Lookup(seq uint16) *refPkt {
+	p := r.slots[int(seq)%len(r.slots)]
+	if p != nil && p.seq != seq {
+		return nil
+	}
+	return p
+}
+
+func (r *refRing) BadT2Lookup(seq uint16) *refPkt {
+	p := r.slots[int(seq)%len(r.slots)]
+	return p
+}
+
+func BadT1UseMemAfterRelease(r *refRing, seq uint16) int {
+	p := r.Get(seq)
+	if p == nil {
+		return 0
+	}
+	b := p.Bytes()
+	p.Release()
+	return sum(b)
+}
+
+func (p *refPkt) Bytes() []byte { return []byte{byte(p.n)} }
+
+func sum(b []byte) int {
+	s := 0
+	for _, x := range b {
+		s += int(x)
+	}
+	return s
+}
